@@ -46,6 +46,11 @@ class Coord (α : Type) where
   zero : α
   /-- `a < f32::INFINITY` -/
   ltInf : α → Bool
+  /-- The bisection target of `par_rcb_split`.  The code computes `min / 2.0 + max / 2.0`
+  (since /repo 2a9cff7; `(min + max) / 2.0` before, which overflows beyond half the `f32`
+  range): that is the `Float32` instance.  In exact arithmetic both are the midpoint; the
+  default – and the integer instance – is `half (add a b)` = `(a + b) / 2` (floor). -/
+  mid : α → α → α := fun a b => half (add a b)
 
 /-- Result of a model function: a value, an out-of-bounds access (panic, or UB for the
 unchecked accesses), or fuel exhaustion (a loop that did not terminate within the fuel). -/
@@ -200,7 +205,7 @@ def split (withinTol : Int → Int → Bool) (coord : Nat) (sum : Int) (items : 
     Nat → Nat → α → α → Option Nat → Bool → Res (SplitOut α)
   | 0, _, _, _, _, _ => .fuel
   | fuel + 1, it, min, max, prev, moved =>
-    let t := Coord.half (Coord.add min max)            -- `(min + max) / 2.0`
+    let t := Coord.mid min max                         -- `min / 2.0 + max / 2.0`
     let s := scan items coord t
     match s.nearest with
     | none =>
@@ -368,7 +373,9 @@ def runRib {β : Type} (rotate : β → List α) (withinTol : Int → Int → Bo
   run withinTol cfg iter (pts.map rotate) ws plen
 
 /-- The exact instance used by the theorems' witnesses: integers, `/ 2.0` is floor
-division, every distance is finite. -/
+division, every distance is finite.  `mid` is left at its default `(a + b) / 2`: the
+exact-arithmetic reading of the target (`a / 2 + b / 2` in floor division would lose a unit
+for two odd bounds, which no real-number reading of the code does). -/
 instance instCoordInt : Coord Int where
   lt a b := decide (a < b)
   le a b := decide (a ≤ b)
